@@ -809,3 +809,517 @@ fn c05_inner(cx: &mut Cx, net: &RealNet, n: usize) -> Option<()> {
 
 #[allow(dead_code)]
 fn _unused(_: Scratchpad, _: SignedRegister) {}
+
+fn raw_quote(net: &RealNet, i: usize, addr: &NetworkAddress) -> Result<Result<ant_evm::PaymentQuote, String>, String> {
+    use ant_protocol::messages::{Query, QueryResponse, Request, Response};
+    let client = net.client.clone();
+    let peer = net.nodes[i].peer;
+    let req = Request::Query(Query::GetStoreQuote { key: addr.clone(), nonce: None, difficulty: 0 });
+    net.ctl.block_on(async move {
+        let mut last = String::new();
+        for _attempt in 0..4 {
+            match tokio::time::timeout(crate::e2e::OP_TIMEOUT, client.send_request(req.clone(), peer)).await {
+                Ok(Ok(Response::Query(QueryResponse::GetStoreQuote { quote, .. }))) => return Ok(quote.map_err(|e| format!("{e:?}"))),
+                Ok(Ok(other)) => return Err(format!("unexpected response {other:?}")),
+                // a connection that went away with a restarted peer: the request is repeated
+                Ok(Err(e)) => last = format!("request failed: {e:?}"),
+                Err(_) => return Err("WATCHDOG".into()),
+            }
+            tokio::time::sleep(Duration::from_millis(300)).await;
+        }
+        Err(last)
+    })
+}
+
+fn upload_valid(cx: &mut Cx, net: &RealNet, it: &Mutable, target: usize, stranger: &Keypair) -> Result<(), String> {
+    let n = net.nodes.len();
+    let env = PayEnv { node_kp: net.nodes[target].kp.clone(), close: (0..n).filter(|j| *j != target).map(|j| net.nodes[j].kp.clone()).collect(), stranger: stranger.clone() };
+    let proof = build_proof(&mut cx.rng, &env, it.content, 3, Conds::all(), &net.stub);
+    net.put((it.paid)(&proof), Some(vec![net.nodes[target].peer]), None)
+}
+
+/// wait until node `i` holds `key` (an accepted upload becoming visible); false = watchdog
+fn wait_held(net: &RealNet, i: usize, key: &RecordKey) -> Result<bool, String> {
+    let t0 = Instant::now();
+    loop {
+        if net.local(i, key)?.is_some() {
+            return Ok(true);
+        }
+        if t0.elapsed() > SETTLE_WATCHDOG {
+            return Ok(false);
+        }
+        std::thread::sleep(Duration::from_millis(25));
+    }
+}
+
+/// C13 on the real network: quotes produced by real nodes (the real GetStoreQuote query -> create_quote_for_storecost)
+/// are bound to the node, the address asked for and every signed field; the client's quoting call hands out only such quotes.
+pub fn c13_case(cx: &mut Cx) {
+    let n = cx.rng.gen_range(5..=8);
+    let Some(net) = start(cx, "c13r", &vec![true; n]) else { return };
+    if c13_inner(cx, &net, n).is_none() {
+        cx.count("realnet:cases-abandoned");
+    }
+    net.shutdown();
+}
+
+fn c13_inner(cx: &mut Cx, net: &RealNet, n: usize) -> Option<()> {
+    let naddr = cx.rng.gen_range(3..=6);
+    let mut judged = 0u64;
+    for _ in 0..naddr {
+        let addr = loop {
+            let a = crate::c11::random_addr(&mut cx.rng);
+            if !matches!(a, NetworkAddress::PeerId(_) | NetworkAddress::RecordKey(_)) {
+                break a;
+            }
+        };
+        let want_content = addr.as_xorname().unwrap_or_default();
+        for i in 0..n {
+            let q = match raw_quote(net, i, &addr) {
+                Ok(Ok(q)) => q,
+                Ok(Err(e)) => {
+                    cx.count("realnet:quote-refused");
+                    cx.log(e);
+                    continue;
+                }
+                Err(e) => {
+                    cx.count("realnet:abandoned:harness-error");
+                    cx.log(e);
+                    return None;
+                }
+            };
+            cx.eval();
+            judged += 1;
+            cx.count("realnet:quotes-from-real-nodes");
+            let peer = net.nodes[i].peer;
+            let w = json!({"nodes": n, "address_kind": crate::c11::kind_of(&addr), "node": i});
+            // bound to the node that issued it
+            let bytes = ant_evm::PaymentQuote::bytes_for_signing(q.content, q.timestamp, &q.quoting_metrics, &q.rewards_address);
+            let sig_ok = net.nodes[i].kp.public().verify(&bytes, &q.signature);
+            if !sig_ok || !q.check_is_signed_by_claimed_peer(peer) || q.pub_key != net.nodes[i].kp.public().encode_protobuf() {
+                cx.violation("realnet:node-quote-not-bound-to-its-issuer", format!("signature over the signed fields verifies under the node's key: {sig_ok}; check_is_signed_by_claimed_peer(issuer): {}", q.check_is_signed_by_claimed_peer(peer)), w.clone());
+            }
+            // ... and to nobody else
+            let other = net.nodes[(i + 1) % n].peer;
+            if q.check_is_signed_by_claimed_peer(other) {
+                cx.violation("realnet:node-quote-verifies-for-another-node", "a quote issued by one node verifies for another".to_string(), w.clone());
+            }
+            // issued for the address asked for, to the node's rewards address, fresh
+            if q.content != want_content {
+                cx.violation("realnet:node-quote-for-another-address", format!("asked for {want_content:?}, quote is for {:?}", q.content), w.clone());
+            }
+            if q.rewards_address != ant_evm::RewardsAddress::new([0x11; 20]) {
+                cx.violation("realnet:node-quote-with-another-rewards-address", format!("{:?}", q.rewards_address), w.clone());
+            }
+            if q.has_expired() {
+                cx.violation("realnet:fresh-node-quote-expired", format!("timestamp {:?}", q.timestamp), w.clone());
+            }
+            // every signed field is covered: a change of any one of them breaks verification
+            for field in 0..7 {
+                let mut t = q.clone();
+                let name = match field {
+                    0 => {
+                        t.content = XorName(cx.rng.gen());
+                        "content"
+                    }
+                    1 => {
+                        t.timestamp += Duration::from_secs(cx.rng.gen_range(1..5000));
+                        "timestamp"
+                    }
+                    2 => {
+                        t.quoting_metrics.close_records_stored += 1;
+                        "close_records_stored"
+                    }
+                    3 => {
+                        t.quoting_metrics.received_payment_count += 1;
+                        "received_payment_count"
+                    }
+                    4 => {
+                        t.quoting_metrics.live_time += 1;
+                        "live_time"
+                    }
+                    5 => {
+                        t.quoting_metrics.max_records += 1;
+                        "max_records"
+                    }
+                    _ => {
+                        t.rewards_address = ant_evm::RewardsAddress::new(cx.rng.gen());
+                        "rewards_address"
+                    }
+                };
+                cx.eval();
+                if t.check_is_signed_by_claimed_peer(peer) {
+                    cx.violation(format!("realnet:altered-node-quote-still-verifies:{name}"), format!("{name} changed after signing"), w.clone());
+                }
+            }
+        }
+        // the client's own quoting call (closest peers -> GetStoreQuote to each -> filter) hands out authentic quotes
+        let client = net.client.clone();
+        let a2 = addr.clone();
+        let got = net.ctl.block_on(async move { tokio::time::timeout(crate::e2e::OP_TIMEOUT, client.get_store_quote_from_network(a2, vec![])).await });
+        match got {
+            Ok(Ok(quotes)) => {
+                cx.count_n("realnet:quotes-through-the-client-call", quotes.len() as u64);
+                let mut seen = BTreeSet::new();
+                for (p, q) in quotes {
+                    cx.eval();
+                    let w = json!({"nodes": n, "address_kind": crate::c11::kind_of(&addr)});
+                    let Some(i) = net.nodes.iter().position(|x| x.peer == p) else {
+                        cx.violation("realnet:client-quote-from-unknown-peer", format!("{p}"), w);
+                        continue;
+                    };
+                    let bytes = ant_evm::PaymentQuote::bytes_for_signing(q.content, q.timestamp, &q.quoting_metrics, &q.rewards_address);
+                    if !net.nodes[i].kp.public().verify(&bytes, &q.signature) || q.content != want_content {
+                        cx.violation("realnet:client-hands-out-unauthentic-quote", format!("node {i}"), w);
+                    }
+                    if !seen.insert(p) {
+                        cx.violation("realnet:client-hands-out-two-quotes-of-one-node", format!("node {i}"), json!({"nodes": n}));
+                    }
+                }
+            }
+            Ok(Err(e)) => {
+                cx.count("realnet:client-quoting-call-failed");
+                cx.log(format!("{e:?}"));
+            }
+            Err(_) => {
+                cx.count("realnet:abandoned:quote-watchdog");
+                return None;
+            }
+        }
+    }
+    if judged > 0 {
+        cx.nontrivial(&("c13-realnet", cx.index, n, naddr));
+        cx.sample(json!({"lane": "real network", "nodes": n, "addresses": naddr, "quotes_judged": judged}));
+    }
+    Some(())
+}
+
+/// C10 on the real network: the figures a real node signs into its quotes equal what it really holds, its capacity
+/// and the payments it really received, also after it was torn down and restarted.
+pub fn c10_case(cx: &mut Cx) {
+    let n = cx.rng.gen_range(5..=7);
+    let Some(mut net) = start(cx, "c10r", &vec![true; n]) else { return };
+    if c10_inner(cx, &mut net, n).is_none() {
+        cx.count("realnet:cases-abandoned");
+    }
+    net.shutdown();
+}
+
+fn c10_inner(cx: &mut Cx, net: &mut RealNet, n: usize) -> Option<()> {
+    let stranger = gen::ed_keypair(&mut cx.rng);
+    let t = cx.rng.gen_range(0..n);
+    // paid uploads to node t (each is one payment it verifies itself) and to others (reaching t by replication only)
+    let nown = cx.rng.gen_range(1..=6);
+    let nother = cx.rng.gen_range(0..=4);
+    let mut paid_at_t = 0usize;
+    for u in 0..nown + nother {
+        let kind = *[Kind::Chunk, Kind::Chunk, Kind::Pad, Kind::Tx, Kind::Reg].choose(&mut cx.rng).expect("nonempty");
+        let it = make_mutable(&mut cx.rng, kind);
+        let target = if u < nown { t } else { (t + 1 + cx.rng.gen_range(0..n - 1)) % n };
+        match upload_valid(cx, net, &it, target, &stranger) {
+            Ok(()) => {}
+            Err(e) => {
+                cx.count("realnet:abandoned:put-failed");
+                cx.log(e);
+                return None;
+            }
+        }
+        match wait_held(net, target, &it.key) {
+            Ok(true) => {
+                if target == t {
+                    paid_at_t += 1;
+                }
+            }
+            Ok(false) => {
+                cx.count("realnet:abandoned:upload-not-visible-at-its-target");
+                return None;
+            }
+            Err(e) => {
+                cx.count("realnet:abandoned:harness-error");
+                cx.log(e);
+                return None;
+            }
+        }
+    }
+    settle(cx, net)?;
+    let judge = |cx: &mut Cx, net: &RealNet, phase: &str| -> Option<()> {
+        let addr = NetworkAddress::from_chunk_address(ant_protocol::storage::ChunkAddress::new(XorName(cx.rng.gen())));
+        let q = match raw_quote(net, t, &addr) {
+            Ok(Ok(q)) => q,
+            Ok(Err(e)) => {
+                cx.count("realnet:quote-refused");
+                cx.log(e);
+                return Some(());
+            }
+            Err(e) => {
+                cx.count("realnet:abandoned:harness-error");
+                cx.log(e);
+                return None;
+            }
+        };
+        // truth, independently: what the node lists, the range it has, the metric
+        let listed = match net.addresses(t) {
+            Ok(l) => l,
+            Err(e) => {
+                cx.count("realnet:abandoned:harness-error");
+                cx.log(e);
+                return None;
+            }
+        };
+        let range = match net.with_driver(t, |d| d.verif_store_mut().map(|s| s.verif_snapshot().responsible_distance_range)) {
+            Ok(r) => r.flatten(),
+            Err(e) => {
+                cx.count("realnet:abandoned:harness-error");
+                cx.log(e);
+                return None;
+            }
+        };
+        let me = net.nodes[t].peer.to_bytes();
+        let close = listed.keys().filter(|k| match &range { None => true, Some(r) => to_u256(&ref_distance(&me, k)) <= *r }).count();
+        let on_edge = listed.keys().any(|k| matches!(&range, Some(r) if to_u256(&ref_distance(&me, k)) == *r));
+        cx.eval();
+        cx.count(&format!("realnet:quotes-judged:{phase}"));
+        let w = json!({"nodes": n, "phase": phase, "records_listed": listed.len(), "range_set": range.is_some(), "payments_verified_by_the_node": paid_at_t, "quoted": {"close_records_stored": q.quoting_metrics.close_records_stored, "max_records": q.quoting_metrics.max_records, "received_payment_count": q.quoting_metrics.received_payment_count}});
+        if q.quoting_metrics.received_payment_count != paid_at_t {
+            cx.violation(format!("realnet:quote-payment-count-wrong:{phase}"), format!("the node verified {paid_at_t} payments itself; its quote says {}", q.quoting_metrics.received_payment_count), w.clone());
+        }
+        if !on_edge && q.quoting_metrics.close_records_stored != close {
+            cx.violation(format!("realnet:quote-record-count-wrong:{phase}"), format!("{close} of the {} listed records are within the responsible range; the quote says {}", listed.len(), q.quoting_metrics.close_records_stored), w.clone());
+        }
+        if q.quoting_metrics.max_records != 16 * 1024 {
+            cx.violation(format!("realnet:quote-capacity-wrong:{phase}"), format!("{}", q.quoting_metrics.max_records), w.clone());
+        }
+        Some(())
+    };
+    judge(cx, net, "running")?;
+    // torn down and restarted: the payments received survive
+    net.crash(t);
+    if let Err(e) = net.restart(t, FORM_WATCHDOG) {
+        cx.count("realnet:abandoned:restart");
+        cx.log(e);
+        return None;
+    }
+    cx.count("realnet:nodes-restarted");
+    if !net.wait_formed(Instant::now() + FORM_WATCHDOG) {
+        cx.count("realnet:abandoned:formation");
+        return None;
+    }
+    settle(cx, net)?;
+    judge(cx, net, "restarted")?;
+    cx.nontrivial(&("c10-realnet", cx.index, n, nown, nother));
+    cx.sample(json!({"lane": "real network", "nodes": n, "payments_verified_by_the_quoting_node": paid_at_t, "uploads_elsewhere": nother}));
+    Some(())
+}
+
+/// C11 on the real network: the closest-peer selection a client / node gets from the real kad query is the ascending
+/// prefix of the reference order over the live nodes.
+pub fn c11_case(cx: &mut Cx) {
+    let n = cx.rng.gen_range(5..=12);
+    let Some(net) = start(cx, "c11r", &vec![true; n]) else { return };
+    if c11_inner(cx, &net, n).is_none() {
+        cx.count("realnet:cases-abandoned");
+    }
+    net.shutdown();
+}
+
+fn c11_inner(cx: &mut Cx, net: &RealNet, n: usize) -> Option<()> {
+    let all: Vec<PeerId> = net.nodes.iter().map(|x| x.peer).collect();
+    for q in 0..cx.rng.gen_range(4..=10) {
+        let addr = crate::c11::random_addr(&mut cx.rng);
+        // asked by the client (itself excluded) or by a node (itself included)
+        let by_node = if q % 3 == 2 { Some(cx.rng.gen_range(0..n)) } else { None };
+        let asker = match by_node {
+            Some(i) => net.net_of(i).ok()?,
+            None => net.client.clone(),
+        };
+        // the candidates: every node, minus the asker itself when a node asks (its own routing table does not list it)
+        let candidates: Vec<PeerId> = all.iter().filter(|p| by_node.map(|i| all[i] != **p).unwrap_or(true)).cloned().collect();
+        let want: Vec<PeerId> = crate::c11::sorted_ref(&candidates, &addr).into_iter().take(7).collect();
+        let mut strikes = 0;
+        let mut last_detail = String::new();
+        for _attempt in 0..3 {
+            let (a2, asker2) = (addr.clone(), asker.clone());
+            let got = net.ctl.block_on(async move {
+                tokio::time::timeout(crate::e2e::OP_TIMEOUT, async {
+                    if by_node.is_some() {
+                        asker2.node_get_closest_peers(&a2).await
+                    } else {
+                        asker2.client_get_all_close_peers_in_range_or_close_group(&a2).await
+                    }
+                })
+                .await
+            });
+            let list = match got {
+                Ok(Ok(l)) => l,
+                Ok(Err(e)) => {
+                    cx.count("realnet:closest-peers-call-failed");
+                    cx.log(format!("{e:?}"));
+                    break;
+                }
+                Err(_) => {
+                    cx.count("realnet:abandoned:closest-watchdog");
+                    return None;
+                }
+            };
+            cx.eval();
+            cx.count("realnet:closest-peer-selections-judged");
+            let w = json!({"nodes": n, "address_kind": crate::c11::kind_of(&addr), "asked_by": if by_node.is_some() { "node" } else { "client" }, "got": list.len()});
+            // ascending, duplicate-free and made of nodes of the network: always
+            let ds: Vec<_> = list.iter().map(|p| ref_distance(&p.to_bytes(), &crate::c11::addr_bytes(&addr))).collect();
+            if ds.windows(2).any(|x| x[0] >= x[1]) {
+                cx.violation("realnet:closest-peers-not-ascending", format!("{} peers returned", list.len()), w.clone());
+                break;
+            }
+            if list.iter().any(|p| !all.contains(p)) {
+                cx.violation("realnet:closest-peers-lists-a-stranger", format!("{} peers returned", list.len()), w.clone());
+                break;
+            }
+            if list == want {
+                cx.count("realnet:closest-peer-selections-exactly-the-nearest");
+                break;
+            }
+            // a nearer node is missing: a peer that did not answer the query in time is legitimately left out, so
+            // the same question is asked again; only three answers in a row that leave nearer nodes out count
+            strikes += 1;
+            let full = crate::c11::sorted_ref(&candidates, &addr);
+            let ranks: Vec<usize> = list.iter().map(|p| full.iter().position(|x| x == p).unwrap_or(99)).collect();
+            last_detail = format!("{} returned; reference ranks of the returned peers {ranks:?}", list.len());
+            if strikes == 3 {
+                // not judged: a node that does not answer the kad query in time is legitimately left out, and the
+                // lane cannot tell that from a wrong choice (the choice itself is judged in the controlled cases)
+                cx.count("realnet:closest-peer-selections-with-a-nearer-node-left-out-three-times");
+                cx.log(format!("three answers in a row leave nearer nodes out: {last_detail} {w}"));
+            }
+        }
+        let _ = last_detail;
+    }
+    cx.nontrivial(&("c11-realnet", cx.index, n));
+    cx.sample(json!({"lane": "real network", "nodes": n}));
+    Some(())
+}
+
+/// C04 on the real network: records presented under a key their content does not determine, oversized and
+/// undecodable records arrive through the real kad put path with an otherwise valid payment; nothing of it may be
+/// held by any node, under any key.
+pub fn c04_case(cx: &mut Cx) {
+    let n = cx.rng.gen_range(5..=7);
+    let Some(net) = start(cx, "c04r", &vec![true; n]) else { return };
+    if c04_inner(cx, &net, n).is_none() {
+        cx.count("realnet:cases-abandoned");
+    }
+    net.shutdown();
+}
+
+fn c04_inner(cx: &mut Cx, net: &RealNet, n: usize) -> Option<()> {
+    let stranger = gen::ed_keypair(&mut cx.rng);
+    struct Up {
+        label: &'static str,
+        kind: Kind,
+        /// the key it is presented under and the key its content determines
+        presented: RecordKey,
+        own: RecordKey,
+        good: bool,
+        target: usize,
+    }
+    let mut ups: Vec<Up> = vec![];
+    let mut batch: Vec<(Record, PeerId)> = vec![];
+    for u in 0..cx.rng.gen_range(6..=12) {
+        let kind = *[Kind::Chunk, Kind::Pad, Kind::Tx, Kind::Reg].choose(&mut cx.rng).expect("nonempty");
+        let it = make_mutable(&mut cx.rng, kind);
+        let other = make_mutable(&mut cx.rng, kind);
+        let (label, presented, good): (&'static str, RecordKey, bool) = match u % 4 {
+            0 => ("own-key", it.key.clone(), true),
+            1 => ("key-of-another-record-of-the-kind", other.key.clone(), false),
+            2 => ("random-key", RecordKey::from(gen::bytes(&mut cx.rng, 32)), false),
+            _ => ("own-key", it.key.clone(), true),
+        };
+        let target = net.by_closeness(&presented)[cx.rng.gen_range(0..3)];
+        let env = PayEnv { node_kp: net.nodes[target].kp.clone(), close: (0..n).filter(|j| *j != target).map(|j| net.nodes[j].kp.clone()).collect(), stranger: stranger.clone() };
+        // the payment is made for the address the record is presented under when that is a typed address of the kind,
+        // else for the record's own content: every payment condition holds, only the key is wrong
+        let proof = build_proof(&mut cx.rng, &env, if label == "key-of-another-record-of-the-kind" { other.content } else { it.content }, 3, Conds::all(), &net.stub);
+        let mut rec = (it.paid)(&proof);
+        rec.key = presented.clone();
+        batch.push((rec, net.nodes[target].peer));
+        ups.push(Up { label, kind, presented, own: it.key.clone(), good, target });
+    }
+    // oversized and undecodable values under fresh keys
+    for v in 0..3 {
+        let key = RecordKey::from(gen::bytes(&mut cx.rng, 32));
+        let value = match v {
+            0 => {
+                let mut b = vec![0x91u8, 0x00];
+                b.extend(gen::bytes(&mut cx.rng, 5 * 1024 * 1024));
+                b
+            }
+            1 => gen::bytes_r(&mut cx.rng, 0, 200),
+            _ => vec![0x91, 0x09, 1, 2, 3],
+        };
+        let target = net.by_closeness(&key)[0];
+        batch.push((Record { key: key.clone(), value, publisher: None, expires: None }, net.nodes[target].peer));
+        ups.push(Up { label: ["oversized", "garbage", "unknown-kind"][v], kind: Kind::Chunk, presented: key.clone(), own: key, good: false, target });
+    }
+    let client = net.client.clone();
+    let results: Vec<Result<(), String>> = net.ctl.block_on(async move {
+        let mut hs = vec![];
+        for (rec, peer) in batch {
+            let c = client.clone();
+            hs.push(tokio::spawn(async move {
+                let cfg = ant_networking::PutRecordCfg { put_quorum: Quorum::One, retry_strategy: None, use_put_record_to: Some(vec![peer]), verification: None };
+                match tokio::time::timeout(crate::e2e::OP_TIMEOUT, c.put_record(rec, &cfg)).await {
+                    Ok(r) => r.map_err(|e| format!("{e:?}")),
+                    Err(_) => Err("WATCHDOG".into()),
+                }
+            }));
+        }
+        let mut out = vec![];
+        for h in hs {
+            out.push(h.await.unwrap_or_else(|e| Err(format!("join: {e}"))));
+        }
+        out
+    });
+    if results.iter().any(|r| matches!(r, Err(e) if e == "WATCHDOG")) {
+        cx.count("realnet:abandoned:put-watchdog");
+        return None;
+    }
+    let mut absent: BTreeMap<usize, u32> = BTreeMap::new();
+    for _pass in 0..3 {
+        settle(cx, net)?;
+        for (u, up) in ups.iter().enumerate() {
+            for i in 0..n {
+                cx.eval();
+                let under_presented = match net.local(i, &up.presented) {
+                    Ok(r) => r,
+                    Err(e) => {
+                        cx.count("realnet:abandoned:harness-error");
+                        cx.log(e);
+                        return None;
+                    }
+                };
+                if !up.good {
+                    if under_presented.is_some() {
+                        cx.violation(format!("realnet:mismatched-or-unacceptable-record-held:{}", up.label), format!("node {i} holds a record under the key a {:?} was presented under ({})", up.kind, up.label), json!({"nodes": n, "variant": up.label, "kind": format!("{:?}", up.kind)}));
+                    }
+                    if up.own != up.presented {
+                        if let Ok(Some(_)) = net.local(i, &up.own) {
+                            cx.violation(format!("realnet:rejected-record-stored-under-its-own-key:{}", up.label), format!("node {i}: a {:?} presented under another key was refused there but appears under the key its content determines", up.kind), json!({"nodes": n, "variant": up.label}));
+                        }
+                    }
+                } else if i == up.target && under_presented.is_none() {
+                    *absent.entry(u).or_default() += 1;
+                }
+            }
+        }
+    }
+    for up in &ups {
+        cx.count(&format!("realnet:presented:{}", up.label));
+    }
+    for (u, s) in absent {
+        if s >= 3 {
+            cx.violation("realnet:record-under-its-own-key-not-stored", format!("{:?} with a valid payment under the key its content determines is not held by the node it was sent to after three quiescent samples", ups[u].kind), json!({"nodes": n}));
+        }
+    }
+    cx.nontrivial(&("c04-realnet", cx.index, n, ups.iter().map(|u| u.label).collect::<Vec<_>>()));
+    cx.sample(json!({"lane": "real network", "nodes": n, "presented": ups.iter().map(|u| format!("{:?}:{}", u.kind, u.label)).collect::<Vec<_>>()}));
+    Some(())
+}
